@@ -185,14 +185,15 @@ func panicClass(p string) string {
 	return "explicit"
 }
 
-func runFaults(r *core.Run, prop string) {
-	rng := rand.New(rand.NewSource(r.Seed))
+// buildFaultCases runs the Fault specification and builds the shared malformed/truncated corpus.
+// onlyBig restricts it to single rewrites of size-like fields with large value classes (no truncation): the C14 corpus.
+func buildFaultCases(r *core.Run, rng *rand.Rand, onlyBig bool) (cases []faultCase, info map[string]interface{}, okAll bool) {
 	r.Rule = "TLC checks the input-grammar/fault model Fault: the guarded reader design satisfies NoOOB/NoStall/NoBlowup/Returns for every malformation plan (<= MaxMal value classes on field roles magic/size/count/ucount/offset/type/data) x truncation (before / +1 / last byte of a field, or none) x fault kind (EOF, non-EOF error); the deviations `unchecked` and `trusting` violate them. Every emitted plan is applied to the field maps of generated files in every container and run on every corresponding entry point; additionally every truncation point 0..len of the unmutated generated files, seeded cuts of the repository samples and seeded byte-level mutations"
 	t, err := core.RunTLC(core.TLCOpts{Module: "MC_Fault", Cfg: "Fault.guarded.cfg", Workers: 4, Timeout: 10 * time.Minute, Consts: map[string]string{"MaxMal": map[bool]string{false: "1", true: "2"}[r.Tier == "thorough"]}})
 	defer t.Cleanup()
 	if err != nil || !t.OK {
 		r.Machinery("TLC run on Fault (guarded) failed: %v %s", err, tail(t))
-		return
+		return nil, nil, false
 	}
 	r.AddTLC("Fault.guarded", t)
 	for _, dev := range []string{"unchecked", "trusting"} {
@@ -200,7 +201,7 @@ func runFaults(r *core.Run, prop string) {
 		if err != nil || s.Violated == "" {
 			r.Machinery("Fault (%s deviation) was expected to violate an invariant in the model: %v %s", dev, err, tail(s))
 			s.Cleanup()
-			return
+			return nil, nil, false
 		}
 		r.Extra["deviation_"+dev] = "violates " + s.Violated
 		s.Cleanup()
@@ -216,7 +217,7 @@ func runFaults(r *core.Run, prop string) {
 	})
 	if err != nil || len(plans) == 0 {
 		r.Machinery("reading emitted fault plans: %v (n=%d)", err, len(plans))
-		return
+		return nil, nil, false
 	}
 	if r.Tier == "thorough" && len(plans) > 40000 { // MaxMal = 2: seeded sample of the pairs, all singles
 		var keep []faultPlan
@@ -233,12 +234,12 @@ func runFaults(r *core.Run, prop string) {
 	}
 	items, ok := exifCorpus(r, []string{"Exif.cont.cfg"}, rng)
 	if !ok {
-		return
+		return nil, nil, false
 	}
 	// records made of timestamp / GPS parts: the parsers that index values at fixed positions
 	titems, ok := exifCorpus(r, []string{"Exif.time.cfg"}, rng)
 	if !ok {
-		return
+		return nil, nil, false
 	}
 	var t3 []exifItem
 	for _, it := range titems {
@@ -296,10 +297,9 @@ func runFaults(r *core.Run, prop string) {
 	}
 	if len(bases) == 0 {
 		r.Machinery("no base files")
-		return
+		return nil, nil, false
 	}
 	agnostic := []string{"Parse", "ParseXmp", "imagetype.Scan", "ScanTiffHeader", "Decode", "BmffReader", "ScanJPEG"}
-	var cases []faultCase
 	addCase := func(in fileInput, cut int, fault, what string, salt uint32) {
 		es := append([]string{}, entriesByKind[in.Kind]...)
 		es = append(es, agnostic[int(salt)%len(agnostic)])
@@ -309,7 +309,11 @@ func runFaults(r *core.Run, prop string) {
 	}
 	// (a) the specification's plans on the field maps
 	nplans := 0
+	bigClass := map[string]bool{"max16": true, "max16m1": true, "max31": true, "max32": true, "huge30": true, "c4097": true, "c1025": true, "beyondParent": true, "c129": true, "eofPlus1": true, "allFF": true}
 	for pi, p := range plans {
+		if onlyBig {
+			break
+		}
 		for bi := range bases {
 			b := &bases[bi]
 			salt := hash32(pi, bi, r.Seed)
@@ -370,6 +374,9 @@ func runFaults(r *core.Run, prop string) {
 			continue
 		}
 		m := p.Plan[0]
+		if onlyBig && !bigClass[m.Class] {
+			continue
+		}
 		for bi := range bases {
 			b := &bases[bi]
 			for fi, f := range b.fs {
@@ -389,6 +396,9 @@ func runFaults(r *core.Run, prop string) {
 	}
 	// (b) every truncation point of the unmutated files, both fault kinds
 	for bi := range bases {
+		if onlyBig {
+			break
+		}
 		b := &bases[bi]
 		step := 1
 		if r.Tier != "thorough" && len(b.in.Data) > 1200 {
@@ -447,6 +457,16 @@ func runFaults(r *core.Run, prop string) {
 			addCase(fileInput{Name: fmt.Sprintf("xmp-long-token#%d/%d", n, k), Kind: "xmp", Data: d}, -1, "EOF", fmt.Sprintf("XMP packet with a %d-byte token (form %d)", n, k), uint32(k))
 		}
 	}
+	info = map[string]interface{}{"plans_applied": nplans, "base_files": len(bases), "plans_emitted": len(plans)}
+	return cases, info, true
+}
+
+func runFaults(r *core.Run, prop string) {
+	rng := rand.New(rand.NewSource(r.Seed))
+	cases, info, ok := buildFaultCases(r, rng, false)
+	if !ok {
+		return
+	}
 	ops := make([]core.Op, len(cases))
 	for i, c := range cases {
 		ops[i] = core.Op{ID: i, Kind: "call", Data: c.in.Data, Cut: c.cut, Fault: c.fault, Args: callArgsJSON(c.entry), Trace: prop == "C02"}
@@ -496,9 +516,9 @@ func runFaults(r *core.Run, prop string) {
 			r.Sample(desc)
 		}
 	}
-	r.Extra["plans_applied"] = nplans
-	r.Extra["base_files"] = len(bases)
-	r.Extra["plans_emitted"] = len(plans)
+	for k, v := range info {
+		r.Extra[k] = v
+	}
 	if prop == "C02" {
 		r.Extra["max_(requested-64KiB)/len"] = round3(maxRatio)
 	}
